@@ -647,6 +647,17 @@ def gen_cases(dfols, ctx, suite, n_solve_rounds, n_synth, with_nonplain=False):
             if isinstance(s, str):
                 ctx.count("solve_skipped:" + name + ":" + s)
                 continue
+            if np.ndim(s.resid) != 1 or np.ndim(s.x) != 1:
+                # a result object whose x / resid is not a vector cannot be printed or compared field by field (str() raises):
+                # that is the failure, reported here instead of crashing the harness further down
+                try:
+                    printed = str(s)[:60]
+                except Exception as exc:
+                    printed = "str() raises %s" % type(exc).__name__
+                ctx.fail("C20:malformed-result|resid-or-x-not-a-vector|" + name,
+                         "solve returned resid of type %s (ndim %d), x ndim %d; %s" % (type(s.resid).__name__, np.ndim(s.resid), np.ndim(s.x), printed),
+                         {"name": name, "seed": seed})
+                continue
             yield {"kind": "solve", "name": name, "seed": seed, "result": describe(s)}, s
     for i in range(n_synth):
         rng = np.random.default_rng([ctx.seed, suite, 7777, i])
